@@ -52,6 +52,25 @@ def pick(lo, hi, seed, *idx):
     return lo + mix(seed, *idx) % (hi - lo + 1)
 
 
+def dim_size_from(fields, dims, groups):
+    """(dimension name, threshold size) as a pure function of the other generated fields of a case (a dict of
+    plain JSON data).  Hypothesis produces most examples by mutating earlier ones, so a directly drawn
+    (dimension, size) pair comes out very unevenly (whole threshold groups missing in runs of a few hundred
+    examples); hashing the rest of the case re-draws the pair for every distinct example, which makes every
+    (dimension, group) combination about equally frequent.  A group g stands for g-1, g, g+1; 2049 for itself."""
+    import hashlib
+    import json
+
+    dims, groups = list(dims), list(groups)
+    h = int.from_bytes(hashlib.sha256(json.dumps(fields, sort_keys=True).encode()).digest()[:8], "big")
+    dim = dims[mix(h, 1) % len(dims)]
+    g = groups[mix(h, 2) % len(groups)]
+    return dim, (g if g == 2049 else g + mix(h, 3) % 3 - 1)
+
+
+GROUPS = [16, 32, 64, 128, 256, 1024, 2049]
+
+
 # ------------------------------------------------------------------ memory layouts
 
 # "contiguous": own storage.  "offset": rows 2..2+n of a taller tensor (contiguous, storage offset != 0).
